@@ -143,13 +143,15 @@ def _run_base(ctx):
                 if not g.dominated_by(st, [s2]) and g.dominated_by(s2, [st]):
                     late.append(s2)
         inner = [c for b in st.body for c in calls_in(b)]
-        inner_bad = [c for c in inner if not ((dotted(c.func) or '').endswith('.write') or (dotted(c.func) or '') in ('nbformat.write', 'json.dump'))]
+        # only writes of an already serialised text: nbformat.write / json.dump serialise while the (already truncated) file is open and fail for a value that is not a notebook
+        inner_bad = [c for c in inner if not ((dotted(c.func) or '').endswith('.write') and (dotted(c.func) or '') not in ('nbformat.write',) or (dotted(c.func) or '').endswith('.endswith'))]
         pre = [s2 for s2 in g.stmts() if isinstance(s2, ast.Assign) and tn.why(fn, s2.value) and g.dominated_by(st, [s2])]
         ok = not late and not inner_bad and bool(pre)
         ctx.inst('R20.7', store, 'request parsed (%d statement(s)) before %s; body of the with: %s' % (len(pre), what, [dotted(c.func) for c in inner]), ok,
                  'a malformed body / missing key fails before the output file is opened (truncated)' if ok else
                  ('request data is parsed after the output file has been opened for writing: a malformed request truncates it' if late or not pre else
-                  'work other than the write happens while the output file is open: %s' % [ast.unparse(c)[:40] for c in inner_bad]), st)
+                  'the notebook is serialised while the output file is already open (truncated): a `merged` value that is not a notebook ("oops", [], 5) makes the serialiser raise -- '
+                  'status 500, but the previously stored merge result is gone: %s' % [ast.unparse(c)[:40] for c in inner_bad]), st)
 
     # ---------------------------------------------------------------- R20.8 start-up streams are rewound before every read
     def is_startup(node, fn_):
